@@ -36,7 +36,7 @@ from vf.refs import http_ref as H
 
 ID = 'C11'
 LEVEL = 'exploration'
-RULE = ('Hypothesis draws (origin certificate situation, CONNECT host spelling, insecure switch, opt-out, request spec, response '
+RULE = ('Hypothesis draws (origin certificate situation, CONNECT host spelling (names, IPv4/IPv6 literals, a long name, `localhost` also as `localhost.` and `LOCALHOST`), insecure switch, opt-out, request spec, response '
         'size, TLS write segmentation); each is a full live conversation. Non-trivial: a full handshake + >= 1 request through an '
         'intercepted session, or a refused bad origin; distinct by case hash.')
 ASSUMPTIONS = ['OpenSSL / the ssl module implement TLS and certificate verification correctly', 'deadline 15 s per conversation; hitting it is inconclusive',
